@@ -23,7 +23,7 @@ def run(ctx, rep):
         flag_writers(ctx, rep, impl)
     from props import c18
     c18.connect(ctx, rep, flag_only=True)
-    rep.floor("R9.2", 5 * len(net.impls_present(ctx)))
+    rep.floor("R9.2", 4 * len(net.impls_present(ctx)))
     rep.floor("R9.3", 2 * len(net.impls_present(ctx)))
 
 
